@@ -100,3 +100,160 @@ fn c08_k8_boxed_params_concrete_moduli() {
         i += 1;
     }
 }
+
+// ---------------------------------------------------------------- BoxedMontyForm linear wrappers (k64: real words)
+fn params_k64<const L: usize>(m: &[Word; L]) -> BoxedMontyParams {
+    // add / sub / neg / double / div_by_2 read only the modulus; the other fields are arbitrary
+    let arb: [Word; L] = kani::any();
+    BoxedMontyParams {
+        modulus: Odd(boxed_from(m)),
+        one: boxed_from(&arb),
+        r2: boxed_from(&arb),
+        r3: boxed_from(&arb),
+        mod_neg_inv: Limb(kani::any()),
+        mod_leading_zeros: 0,
+    }
+}
+
+macro_rules! boxed_monty_linear {
+    ($name:ident, $L:expr) => {
+        #[kani::proof]
+        #[kani::unwind(8)]
+        fn $name() {
+            const L: usize = $L;
+            let m: [Word; L] = kani::any();
+            let (x, y): ([Word; L], [Word; L]) = (kani::any(), kani::any());
+            kani::assume(m[0] & 1 == 1 && ref_lt(&x, &m) && ref_lt(&y, &m));
+            let params = alloc::sync::Arc::new(params_k64(&m));
+            let a = super::BoxedMontyForm { montgomery_form: boxed_from(&x), params: params.clone() };
+            let b = super::BoxedMontyForm { montgomery_form: boxed_from(&y), params: params.clone() };
+            // reference: x + y mod m, x - y mod m on the stored representatives (linear maps commute with the Montgomery map)
+            let (s, c) = ref_add(&x, &y, 0);
+            let (s_m, bo) = ref_sub(&s, &m, 0);
+            let want_add = if c == 1 || bo == 0 { s_m } else { s };
+            let (d, bd) = ref_sub(&x, &y, 0);
+            let (d_p, _) = ref_add(&d, &m, 0);
+            let want_sub = if bd != 0 { d_p } else { d };
+            let which: u8 = kani::any();
+            match which {
+                0 => {
+                    let r = a.add(&b);
+                    assert!(words_eq(&bwords::<L>(r.as_montgomery()), &want_add));
+                    let r2 = &a + &b;
+                    assert!(words_eq(&bwords::<L>(r2.as_montgomery()), &want_add));
+                    core::mem::forget((r, r2));
+                }
+                1 => {
+                    let r = a.sub(&b);
+                    assert!(words_eq(&bwords::<L>(r.as_montgomery()), &want_sub));
+                    let r2 = &a - &b;
+                    assert!(words_eq(&bwords::<L>(r2.as_montgomery()), &want_sub));
+                    core::mem::forget((r, r2));
+                }
+                2 => {
+                    let n = a.neg();
+                    let (nm, _) = ref_sub(&m, &x, 0);
+                    let want = if is_zero_words(&x) { x } else { nm };
+                    assert!(words_eq(&bwords::<L>(n.as_montgomery()), &want));
+                    core::mem::forget(n);
+                }
+                3 => {
+                    let dbl = a.double();
+                    let (s2, c2) = ref_add(&x, &x, 0);
+                    let (s2m, b2) = ref_sub(&s2, &m, 0);
+                    let want = if c2 == 1 || b2 == 0 { s2m } else { s2 };
+                    assert!(words_eq(&bwords::<L>(dbl.as_montgomery()), &want));
+                    core::mem::forget(dbl);
+                }
+                _ => {
+                    // h = x/2 mod m: the unique h < m with 2h = x or 2h = x + m
+                    let h = a.div_by_2();
+                    let hw = bwords::<L>(h.as_montgomery());
+                    assert!(ref_lt(&hw, &m));
+                    let (h2, ch) = ref_add(&hw, &hw, 0);
+                    let (xm, cx) = ref_add(&x, &m, 0);
+                    assert!((ch == 0 && words_eq(&h2, &x)) || (ch == cx && words_eq(&h2, &xm)));
+                    let mut g = super::BoxedMontyForm { montgomery_form: boxed_from(&x), params: params.clone() };
+                    g.div_by_2_assign();
+                    assert!(words_eq(&bwords::<L>(g.as_montgomery()), &hw));
+                    core::mem::forget((h, g));
+                }
+            }
+            kani::cover!(which == 0 && c == 1);
+            kani::cover!(which == 1 && bd != 0);
+            kani::cover!(which == 4 && x[0] & 1 == 1);
+            core::mem::forget((a, b, params));
+        }
+    };
+}
+//@ name=c08_boxed_monty_linear_1 prop=C08,C07,C15,C11 tier=quick profile=k64 funcs="BoxedMontyForm::add,sub,neg,double,div_by_2,div_by_2_assign,Add/Sub for &BoxedMontyForm" bound="real u64 words, boxed 1 limb: every odd modulus, every pair of stored values below it" free_bits=200
+boxed_monty_linear!(c08_boxed_monty_linear_1, 1);
+//@ name=c08_boxed_monty_linear_2 prop=C08,C07,C15,C11 tier=quick profile=k64 funcs="BoxedMontyForm::add,sub,neg,double,div_by_2,div_by_2_assign,Add/Sub for &BoxedMontyForm" bound="real u64 words, boxed 2 limbs: every odd modulus, every pair of stored values below it" free_bits=392
+boxed_monty_linear!(c08_boxed_monty_linear_2, 2);
+
+// ---------------------------------------------------------------- BoxedMontyForm products through the public wrappers (k8)
+fn params_k8_2(m: &Uint<2>, ninv16: u16) -> BoxedMontyParams {
+    // mul / square / lincomb read modulus, mod_neg_inv and the clamped leading-zero count only
+    let lz = m.leading_zeros();
+    BoxedMontyParams {
+        modulus: Odd(boxed_from(&words_of(m))),
+        one: boxed_from(&[0, 0]),
+        r2: boxed_from(&[0, 0]),
+        r3: boxed_from(&[0, 0]),
+        mod_neg_inv: Limb(ninv16 as Word),
+        mod_leading_zeros: if lz < 7 { lz } else { 7 },
+    }
+}
+
+macro_rules! boxed_form_products {
+    ($name:ident, $W:expr) => {
+        #[kani::proof]
+        #[kani::unwind(8)]
+        fn $name() {
+            let m = Uint::<2>::new([Limb(shaped_word(2) | 1), Limb(shaped_signed_top(2))]);
+            let mm = to_u64(&m);
+            kani::assume(mm >= 3);
+            let ninv16: u16 = kani::any();
+            kani::assume(ninv16.wrapping_mul(mm as u16).wrapping_add(1) == 0);
+            let x: Uint<2> = shaped(1);
+            let y: Uint<2> = shaped(1);
+            let (xv, yv) = (to_u64(&x), to_u64(&y));
+            kani::assume(xv < mm && yv < mm);
+            let params = alloc::sync::Arc::new(params_k8_2(&m, ninv16));
+            let a = super::BoxedMontyForm { montgomery_form: boxed_from(&words_of(&x)), params: params.clone() };
+            let b = super::BoxedMontyForm { montgomery_form: boxed_from(&words_of(&y)), params: params.clone() };
+            let val = |f: &super::BoxedMontyForm| (bword(f.as_montgomery(), 0) as u64) | ((bword(f.as_montgomery(), 1) as u64) << 8);
+            let pxy = redc2(xv * yv, mm, ninv16 as u64);
+            let pxx = redc2(xv * xv, mm, ninv16 as u64);
+            let which: u8 = $W;
+            kani::assume(which != 2 || mm >> 15 == 1); // lincomb: window size fixed (no leading zero bits)
+            match which {
+                0 => {
+                    let p = a.mul(&b);
+                    let q = &a * &b;
+                    assert!(val(&p) == pxy && val(&q) == pxy);
+                    core::mem::forget((p, q));
+                }
+                1 => {
+                    let s = a.square();
+                    assert!(val(&s) == pxx);
+                    core::mem::forget(s);
+                }
+                _ => {
+                    let l = super::BoxedMontyForm::lincomb_vartime(&[(&a, &b)]);
+                    assert!(val(&l) == pxy);
+                    core::mem::forget(l);
+                }
+            }
+            kani::cover!(pxy + pxx >= mm || which == 2);
+            kani::cover!(mm > 0xff00 && xv > 0xff00);
+            core::mem::forget((a, b, params));
+        }
+    };
+}
+//@ name=c08_k8_boxed_form_mul_2 prop=C08,C09,C15,C11 tier=quick profile=k8 funcs="BoxedMontyForm::mul,Mul for &BoxedMontyForm" bound="u8 words, boxed 2 limbs: m=[S(2)|1, S(2)^sign] >= 3, stored values with limbs S(1), < m: equal to the textbook REDC result, canonical" free_bits=21
+boxed_form_products!(c08_k8_boxed_form_mul_2, 0);
+//@ name=c08_k8_boxed_form_square_2 prop=C08,C09,C15,C11 tier=quick profile=k8 funcs="BoxedMontyForm::square" bound="u8 words, boxed 2 limbs: m=[S(2)|1, S(2)^sign] >= 3, stored values with limbs S(1), < m: equal to the textbook REDC result, canonical" free_bits=21
+boxed_form_products!(c08_k8_boxed_form_square_2, 1);
+// BoxedMontyForm::lincomb_vartime (lincomb_boxed_monty_form) does not finish within 600 s even for one term and a
+// fixed window size; the shared macro body is covered through the fixed-width MontyForm (monty_form__c09l.rs).
